@@ -130,6 +130,10 @@ func runC05(c *Ctx) {
 	c.Rule("C05.W", "write-through writers, single-read readers", 10)
 	ruleNoOwnCopyLoop(c, p, "C05.W", "agent/utils", "agent/websockets", "agent/sessions", "agent/banner")
 	c.Rule("C05.P", "the body travels through two synchronous pipes", 6)
+	// the handler chain serves the parsed request itself (= C02.I): a copy re-bound to a context
+	// with a deadline taken from the proxy's start-time header ends a stream that is still being
+	// produced
+	c.Borrow(runC02, "C02.I", "C05.P", func(k string) bool { return k == "agent:serves-parsed-request" })
 	rulePipeClosers(c, p, "C05.P")
 	c.Rule("C05.C", "forced chunked framing (= C03.C)", 1)
 	c.Rule("C05.F", "reverse proxy flush interval", 1)
